@@ -2,7 +2,8 @@ import FitProps.IntegrityLemmas
 /-!
 # C04 — Corrupted or truncated files are rejected, never silently accepted
 
-PROPERTY THEOREMS (audited by ./check): C04_consts, C04_burst, C04_bitflip, C04_truncation, C04_intact_accepted
+PROPERTY THEOREMS (audited by ./check): C04_consts, C04_burst, C04_bitflip, C04_truncation, C04_intact_accepted,
+C04_append, C04_suffix, C04_suffix_complete, C04_reference_partial, C04_reference_witness
 
 Objects: `Integrity.checkIntegrity` (model of `Decoder.CheckIntegrity`), `Integrity.decodeOne` / `decodeAll`
 (model of the first `Decode()` / of the decode loop, checksums on), `IsEncoderOutput14` ("encoder output" as a
@@ -182,5 +183,120 @@ theorem C04_truncation (f : List Nat) (hf : IsEncoderOutput14 f) (k : Nat) (hk :
       rw [checkLoop_step _ _ _ _ _ hh]
       simp only [hshort, if_true]
       simp
+
+/-- **Intact files are accepted** (the rejections above are not vacuous): an encoder output with at least one
+record byte passes the integrity check as one sequence. -/
+theorem C04_intact_accepted (f : List Nat) (hf : IsEncoderOutput14 f) (hD : 16 < f.length) :
+    checkIntegrity f = .ok 1 := by
+  obtain ⟨pv, p0, p1, d0, d1, d2, d3, k0, k1, rest, hfe, hH, hkc, hrl, hrb, hz⟩ := intact_tail (encoderOutput_intact hf)
+  have hD' : d0 + 256 * d1 + 65536 * d2 + 16777216 * d3 ≠ 0 := by
+    rw [hfe] at hD; simp at hD; omega
+  have hh := header14_decode true pv p0 p1 d0 d1 d2 d3 k0 k1 rest hH hkc hD'
+  unfold checkIntegrity
+  rw [hfe, checkLoop_step _ _ _ _ _ hh]
+  simp only
+  have hres := (residue_iff rest _ hrb hrl).mpr hz
+  rw [if_neg (by omega), if_neg (by simp [hres])]
+  have : rest.drop (d0 + 256 * d1 + 65536 * d2 + 16777216 * d3 + 2) = [] := by
+    apply List.eq_nil_of_length_eq_zero; simp; omega
+  rw [this]
+  simp only [List.length_cons]
+  exact checkLoop_nil _ _ (by decide)
+
+/-- **Appended data, the equation.** If the check accepts `f` with `n` sequences, then on `f ++ s` (`s` non-empty)
+its outcome is its outcome on `s` alone with `n` added to the count of valid leading sequences. -/
+theorem C04_append (f s : List Nat) (n : Nat) (hf : checkIntegrity f = .ok n) (hs : s ≠ []) :
+    checkIntegrity (f ++ s) = bump n (checkIntegrity s) := by
+  unfold checkIntegrity at hf ⊢
+  rw [checkLoop_append _ _ _ _ _ hf (by omega) _ (by omega)]
+  have := checkLoop_bump ((f ++ s).length + 1) 0 n s (Or.inl hs)
+  rw [Nat.zero_add] at this
+  rw [this, checkLoop_fuel ((f ++ s).length + 1) (s.length + 1) 0 s (by simp; omega) (by omega)]
+
+/-- **Suffix.** Appending bytes that are not themselves complete valid sequences to an accepted stream makes the
+integrity check fail. -/
+theorem C04_suffix (f s : List Nat) (n : Nat) (hf : checkIntegrity f = .ok n) (hs : s ≠ [])
+    (hbad : ∀ m, checkIntegrity s ≠ .ok m) : ∀ m, checkIntegrity (f ++ s) ≠ .ok m := by
+  intro m
+  rw [C04_append f s n hf hs]
+  cases h : checkIntegrity s with
+  | ok k => exact absurd h (hbad k)
+  | err e k => simp [bump]
+
+/-- … and appending complete valid sequences is accepted, the counts add up (chained FIT files). -/
+theorem C04_suffix_complete (f s : List Nat) (n m : Nat) (hf : checkIntegrity f = .ok n)
+    (hs : checkIntegrity s = .ok m) : checkIntegrity (f ++ s) = .ok (m + n) := by
+  have hne : s ≠ [] := by
+    intro h; subst h; simp [checkIntegrity, checkLoop, decodeFileHeader] at hs
+  rw [C04_append f s n hf hne, hs]; rfl
+
+/-- the full statement of the last clause of the property: on ANY byte string the integrity check's verdict and
+count of valid leading sequences equal the reference's. FALSE on the pinned tree (see `C04_reference_witness`). -/
+def C04_reference_full : Prop := ∀ bs, Bytes bs → verdict (checkIntegrity bs) = IntegritySpec.reference bs
+
+/-- **Reference, partial.** For every byte string on which the reference walk meets no 12-byte header and no
+14-byte header whose CRC field is 0 (`legacyMet = false`, the complement of finding KF-C04-1 / F06), verdict and
+count of `CheckIntegrity` equal the reference's. -/
+theorem C04_reference_partial (bs : List Nat) (hb : Bytes bs) (hleg : IntegritySpec.legacyMet bs = false) :
+    verdict (checkIntegrity bs) = IntegritySpec.reference bs :=
+  check_ref_lockstep _ 0 bs hb (by omega) hleg
+
+/-- the official SDK sample testdata/from_official_sdk/Settings.fit (12-byte header, CRC over header and records) -/
+def settingsFit : List Nat :=
+  [0x0c,0x10,0x47,0x00,0x44,0x00,0x00,0x00,0x2e,0x46,0x49,0x54,0x40,0x00,0x01,0x00,0x00,0x04,0x01,0x02,0x84,0x02,
+   0x02,0x84,0x03,0x04,0x8c,0x00,0x01,0x00,0x00,0x00,0x01,0x03,0xdc,0x00,0x01,0xe2,0x40,0x02,0x40,0x00,0x01,0x00,
+   0x03,0x05,0x04,0x02,0x84,0x01,0x01,0x00,0x02,0x01,0x02,0x03,0x01,0x02,0x05,0x01,0x00,0x00,0x03,0x84,0x01,0x1c,
+   0xbe,0x00,0x40,0x00,0x01,0x00,0x04,0x01,0x01,0x02,0x8b,0x00,0x00,0x64,0x39,0x50]
+
+/-- **Witness of KF-C04-1 (F06):** the reference accepts Settings.fit as one valid sequence; the model of
+`CheckIntegrity` — as the code — rejects it with a CRC mismatch, and so does `Decode`. Hence the full statement fails. -/
+theorem C04_reference_witness :
+    IntegritySpec.reference settingsFit = .ok 1 ∧ checkIntegrity settingsFit = .err .crc 0 ∧
+    decodeAll true settingsFit = .err .crc 0 ∧ IntegritySpec.legacyMet settingsFit = true ∧ ¬ C04_reference_full := by
+  have h1 : IntegritySpec.reference settingsFit = .ok 1 := by decide +kernel
+  have h2 : checkIntegrity settingsFit = .err .crc 0 := by decide +kernel
+  refine ⟨h1, h2, by decide +kernel, by decide +kernel, ?_⟩
+  intro hfull
+  have := hfull settingsFit (by decide +kernel)
+  rw [h1, h2] at this
+  cases this
+
+/-! ### non-vacuity: a concrete encoder output meets the hypotheses -/
+
+/-- a small intact file (file_id and one record, 14-byte header); the real decoder accepts it (corpus/integrity.txt) -/
+def sampleFit : List Nat :=
+  [0x0e,0x20,0x5c,0x08,0x1d,0x00,0x00,0x00,0x2e,0x46,0x49,0x54,0xf8,0xae,0x40,0x00,0x00,0x00,0x00,0x01,0x00,0x01,
+   0x00,0x00,0x04,0x40,0x00,0x00,0x14,0x00,0x02,0xfd,0x04,0x86,0x03,0x01,0x02,0x00,0x00,0xca,0x9a,0x3b,0x46,0x5d,0x5c]
+
+instance (f : List Nat) : Decidable (IsEncoderOutput14 f) := by
+  unfold IsEncoderOutput14
+  have : Decidable (∃ s, FitFormat.parseStream f = some [s] ∧ s.header.size = 14 ∧
+      FitFormat.headerCrcStrict f s = true ∧ FitFormat.fileCrcOk f s = true) :=
+    match h : FitFormat.parseStream f with
+    | some [s] =>
+      if hc : s.header.size = 14 ∧ FitFormat.headerCrcStrict f s = true ∧ FitFormat.fileCrcOk f s = true
+      then isTrue ⟨s, rfl, hc⟩
+      else isFalse (by rintro ⟨s', hs', hc'⟩; cases hs'; exact hc hc')
+    | none => isFalse (by rintro ⟨s', hs', _⟩; cases hs')
+    | some [] => isFalse (by rintro ⟨s', hs', _⟩; cases hs')
+    | some (_ :: _ :: _) => isFalse (by rintro ⟨s', hs', _⟩; cases hs')
+  infer_instance
+
+/-- the sample meets the hypothesis of the theorems, is accepted intact (model of `CheckIntegrity` and of the decode
+loop), and a 16-bit burst pattern straddling three bytes of its records meets `BurstWithin16` -/
+example : IsEncoderOutput14 sampleFit ∧ checkIntegrity sampleFit = .ok 1 ∧ decodeAll true sampleFit = .ok 1 2 := by
+  decide +kernel
+example : BurstWithin16 (List.replicate 5 0 ++ [0x80, 0xA5, 0x40] ++ List.replicate 23 0) ∧
+    (List.replicate 5 0 ++ [0x80, 0xA5, 0x40] ++ List.replicate 23 0).length = sampleFit.length - 14 :=
+  ⟨⟨47, 0x814B, by decide +kernel, by decide, by decide⟩, by decide⟩
+/-- and the corrupted sample is rejected by evaluation too (as C04_burst says) -/
+example : checkIntegrity (corrupt sampleFit (List.replicate 5 0 ++ [0x80, 0xA5, 0x40] ++ List.replicate 23 0)) = .err .crc 0 := by
+  decide +kernel
+/-- C04_reference_partial is not vacuous: the sample has no legacy header, and the reference accepts it -/
+example : IntegritySpec.legacyMet sampleFit = false ∧ IntegritySpec.reference sampleFit = .ok 1 := by decide +kernel
+/-- C04_suffix: trailing garbage after the sample is not a complete sequence -/
+example : ∀ m, checkIntegrity [0x0e, 0x20] ≠ .ok m := by
+  intro m; have : checkIntegrity [0x0e, 0x20] = .err .eof 0 := by decide +kernel
+  rw [this]; simp
 
 end Fit.C04
